@@ -215,8 +215,8 @@ func run(c *vf.Ctx) {
 	c.Set("simple_proof_lengths", "every length 1..70, every index (exhaustive over (length,index)); items random")
 	c.Assume("ics23 (github.com/cosmos/ics23/go v0.11.0) is the trusted verifier for B+ tree proofs; the root it is given is recomputed independently from node contents and model values")
 	c.Assume("documented exception (bptree/proof.go, TestProof_EmptyValueUnprovable): a key holding an EMPTY value has no verifying membership proof and poisons the non-membership proofs of its gaps; tree cases use non-empty values, the exception itself is observed and counted")
-	c.Assume("a non-membership proof proves its whole gap empty: other absent keys of the SAME gap also verify (inherent to ics23 neighbour proofs); asserted: no present key and no key outside the gap verifies")
-	c.Assume("SimpleProof.Verify documents that Total/Index are to be checked by the caller: a changed Total that leaves the (index,total) path unchanged is counted, not flagged")
+	c.Assume("strict reading: a non-membership proof that also verifies for another absent key of the SAME gap is reported under nonmembership:other-absent-key-in-same-gap-accepted (inherent to ics23 neighbour proofs); independently asserted: no present key and no key outside the gap verifies")
+	c.Assume("strict reading: a changed SimpleProof.Total that leaves the (index,total) path unchanged and still verifies is reported under simpleproof:mutation-accepted:total-same-path (Verify documents that Total/Index are for the caller to check)")
 	c.Assume("a verifier panic on a mutated proof counts as rejection (the property is about acceptance) and is reported in verifier_panics_counted_as_rejection")
 
 	c.RequireCounter("membership_proofs_verified", 500)
